@@ -19,7 +19,7 @@ SCALE = ('8-bar pieces with all 128 groupings; general pauses of 7/8/16/24 bars 
 ASSUMPTIONS = ["token lists and state dictionaries of different partitions need not be equal, only their detokenised meaning"]
 REQUIRED_FLAGS = ["signature_change", "empty_bar", "note_cut_by_bar_line", "side_track_shorter", "later_chunk_has_note",
                   "all_partitions_explored", "two_track_piece_with_side_notes_explored", "running_values_off", "unfused_flags", "requantise_on", "requantise_off",
-                  "general_pause_of_many_bars"]
+                  "general_pause_of_many_bars", "rejected_call_explored"]
 
 SIG = {"44": (4, 4), "34": (3, 4), "38": (3, 8), "68": (6, 8), "58": (5, 8),      # a 36-tick note fills a 3/8 bar exactly
        "78": (7, 8), "98": (9, 8)}
@@ -164,6 +164,17 @@ def check_case(case, ctx):
 
     def chunk(a, b):
         return [Bar.to_sequence([core.clone(tr[i]) for i in range(a, b)]) for tr in bars]
+
+    def poisoned(a, b):
+        """the same chunk with one note the tokeniser must reject (pitch above its range) on the chunk's LAST tick, i.e.
+        after every event of the chunk has been processed"""
+        seqs_ = chunk(a, b)
+        end_ = max(lib.view_abs(x)[1] for x in seqs_)
+        if end_ < 2:
+            return None
+        seqs_[0].add_absolute_message(lib.on(end_ - 1, 120, 0, 64))
+        seqs_[0].add_absolute_message(lib.off(end_, 120, 0))
+        return seqs_
     # the bars themselves, laid end to end (independent pairing)
     truth = []
     for tr in bars:
@@ -224,6 +235,21 @@ def check_case(case, ctx):
                               f"flags {fl}, bars per call {path + [g]}: track {diff}: chunked (notes,orphans,unclosed,barlines,duration) "
                               f"{m[diff]} vs single call {ref[k + g][diff]}; state {sd2}")
                         continue
+                    if g == 1 and k % 2 == 0:
+                        # failure path: a call the tokeniser rejects must leave the caller's dictionary as it found it
+                        # (the dictionary is the only carrier of the clock; the caller repeats the call with repaired input)
+                        bad_chunk = poisoned(k, k + g)
+                        if bad_chunk is not None:
+                            sd3 = dict(sd)
+                            try:
+                                t.tokenise(bad_chunk, state_dict=sd3)
+                            except TokenisationException:
+                                R.flags.append("rejected_call_explored")
+                                if sd3 != sd:
+                                    R.bad("rejected_call_changed_the_state_dictionary",
+                                          f"flags {fl} calls {path} then a rejected call on bar {k}: dictionary {sd} became {sd3}")
+                            except Exception as e:  # noqa: BLE001
+                                R.bad("stateful_call_fails", f"flags {fl} rejected call: {type(e).__name__}: {e}")
                     if k + g == n:
                         paths_to_end += 1
                     key = (k + g, tuple(sorted(sd2.items())), m)
